@@ -47,9 +47,9 @@ def allSome {α : Type} : List (Option α) → Option (List α)
   | some a :: rs => (allSome rs).map (a :: ·)
   | none :: _ => none
 
-def subsetB (a b : List Nat) : Bool := a.all fun k => b.contains k
+def subsetB (a b : List Key) : Bool := a.all fun k => b.contains k
 
-def keyCond (kind : DictKind) (ks oks : List Nat) : Bool :=
+def keyCond (kind : DictKind) (ks oks : List Key) : Bool :=
   match kind with
   | .exact => subsetB ks oks && subsetB oks ks
   | .contains => subsetB ks oks
@@ -61,6 +61,7 @@ def spec : M → V → Option Verdict
   | .excTypeV cs vm, v => match v with
       | .exc e true =>
           if excTypeMatches cs e then (strictB (spec vm (.exc e false))).map Verdict.ofBool else some .mismatch
+      | .tuple _ => none                 -- a tuple that is no exc_info: outside the domain
       | _ => some .mismatch
   | .raises em, v => match v with
       | .fnRet _ => some .mismatch
@@ -92,7 +93,7 @@ def spec : M → V → Option Verdict
   | .dict kind ks ms, v => match v with
       | .dict oks ovs =>
           if ks.length != ms.length then none
-          else (bools (specZip ms (ks.map fun k => lookupKey k oks ovs))).map fun bs =>
+          else (bools (specZip ms (ks.map fun k => lookupK k oks ovs))).map fun bs =>
             .ofBool (keyCond kind ks oks && bs.all id)
       | _ => none
   | .annotate m, v => spec m v
